@@ -13,10 +13,10 @@ cd $wt
 if ! git apply --check $src/patch.diff 2>/dev/null; then res "patch does not apply to current HEAD"; cleanup; exit 1; fi
 git apply $src/patch.diff
 if ! go build ./... 2>/tmp/scr/$id.build; then res "does not build"; cat /tmp/scr/$id.build | head; cleanup; exit 1; fi
-suite=$(REPO_DIR=$wt /verif/scripts/baseline.sh 2>&1)
+suite=$(REPO_DIR=$wt flock /tmp/mut/suite.lock /verif/scripts/baseline.sh 2>&1)
 echo "$suite" | head -8
 if ! echo "$suite" | grep -q "failing_or_missing=0"; then
-  suite2=$(REPO_DIR=$wt /verif/scripts/baseline.sh 2>&1); echo "retry: $suite2" | head -5
+  suite2=$(REPO_DIR=$wt flock /tmp/mut/suite.lock /verif/scripts/baseline.sh 2>&1); echo "retry: $suite2" | head -5
   if ! echo "$suite2" | grep -q "failing_or_missing=0"; then res "suite fails with the change"; cleanup; exit 1; fi
 fi
 # demos
